@@ -78,6 +78,8 @@ Decode(b) ==
                                        ai  |-> b[pY + 6 * (k - 1) + 6]]]),
    chars |-> chars,
    hasfooter |-> ~v1 /\ nl2 # 0,
+   \* a version-2+ file that ends before the closing newline of its footer: a truncated file
+   cut |-> ~v1 /\ (pEnd >= Len(b) \/ (nl1 # 0 /\ nl2 = 0)),
    footer |-> IF ~v1 /\ nl2 # 0 THEN SubSeq(b, nl1 + 1, nl2 - 1) ELSE <<>>]
 
 \* structural validity of the decoded block (RFC 8536 section 3.2 + what zic guarantees)
